@@ -11,6 +11,7 @@ theorem pins :
     Facts.ecs_family6 = 2 ∧ Facts.ecs_guard = "r.opt.ecsEnabled && remoteAddr.IsValid()" ∧
     Facts.ecs_unmap = "addr = addr.Unmap()" ∧ Facts.fwd_removeEdns0 = "dnsmsg.RemoveEDNS0(resp)" := by decide
 
+set_option maxRecDepth 8000 in
 /-- EDNS0 ends at the proxy: `RemoveEDNS0` (applied to every upstream reply) drops every OPT record of every
     section and keeps the order of the others (`Router.stripOpt`); a query "has an OPT" if one is in any section
     (`Router.queryHasOptAny`); the empty answer of the limiter / overload paths gets the proxy's OPT iff so. -/
